@@ -102,6 +102,8 @@ pub enum Op {
     Append { pairs: Vec<(u32, i64)>, cap: usize },
     Convert,
     CloneSwap,
+    /// `dst.clone_from(&queue)` into a queue that already holds `pre`, then continue with dst
+    CloneFrom { pre: Vec<(u32, i64)> },
     Drain { front: usize, back: usize, leak: bool },
     Clear,
     Reserve(usize),
@@ -145,6 +147,7 @@ impl Op {
             Op::Append { .. } => "append",
             Op::Convert => "convert",
             Op::CloneSwap => "clone",
+            Op::CloneFrom { .. } => "clone_from",
             Op::Drain { .. } => "drain",
             Op::Clear => "clear",
             Op::Reserve(_) => "reserve",
@@ -169,7 +172,7 @@ impl Op {
             Op::IterMut { .. } => &["C08", "C09"],
             Op::Retain { .. } | Op::RetainMut { .. } => &["C08"],
             Op::Extend { .. } | Op::Append { .. } | Op::Convert => &["C07"],
-            Op::CloneSwap | Op::EqCheck => &["C14"],
+            Op::CloneSwap | Op::CloneFrom { .. } | Op::EqCheck => &["C14"],
             Op::Drain { .. } | Op::Clear => &["C16"],
             Op::Reserve(_) | Op::ReserveExact(_) | Op::TryReserve(_) | Op::TryReserveExact(_) | Op::Shrink => &["C17"],
             Op::SortedCheck | Op::SortedItemsCheck { .. } => &["C06"],
@@ -319,6 +322,9 @@ impl<'a> Mon<'a> {
     }
     pub fn predlog(&self, d: String) -> Viol {
         self.mk("M-PREDLOG", &["C08"], d)
+    }
+    pub fn popif_pair(&self, d: String) -> Viol {
+        self.mk("M-RET-popif", &["C08", "C03"], d)
     }
     pub fn cap(&self, d: String) -> Viol {
         self.mk("M-CAP", &["C17"], d)
@@ -708,20 +714,21 @@ impl<Q: QueueApi> State<Q> {
                             match r {
                                 Some((i, p)) => {
                                     if i.id() != pk.0 || p.ord != after.ord || p.tag != after.tag || i.payload != after.payload {
-                                        return Err(mon.predlog(format!(
+                                        // the pop family must return (and remove) the stored pair it showed: C08 and C03
+                                        return Err(mon.popif_pair(format!(
                                             "pop_if(true) returned ({}, ord {}, tag {}, payload {}) expected ({}, ord {}, tag {}, payload {})",
                                             i.id(), p.ord, p.tag, i.payload, pk.0, after.ord, after.tag, after.payload
                                         )));
                                     }
                                     Ok(Ret::Pair(pk.0, after.ord))
                                 }
-                                None => Err(mon.predlog("pop_if(true) returned None".to_string())),
+                                None => Err(mon.popif_pair("pop_if(true) returned None".to_string())),
                             }
                         } else {
                             self.m.m.insert(pk.0, after);
                             match r {
                                 None => Ok(Ret::None),
-                                Some((i, _)) => Err(mon.predlog(format!("pop_if(false) removed item {}", i.id()))),
+                                Some((i, _)) => Err(mon.popif_pair(format!("pop_if(false) removed item {}", i.id()))),
                             }
                         }
                     }
@@ -993,6 +1000,18 @@ impl<Q: QueueApi> State<Q> {
                     return Err(mon.other("M-EQ", "a clone is not equal to its source".to_string()));
                 }
                 self.q = c;
+                Ok(Ret::Unit)
+            }
+            Op::CloneFrom { pre } => {
+                let mut dst = Q::q_new();
+                for &(id, ord) in pre {
+                    dst.push(Item::new(id), Prio::new(ord));
+                }
+                dst.q_clone_from(&self.q);
+                if !dst.eq_q(&self.q) || !self.q.eq_q(&dst) || dst.ne_q(&self.q) {
+                    return Err(mon.other("M-EQ", "a clone made with clone_from is not equal to its source".to_string()));
+                }
+                self.q = dst;
                 Ok(Ret::Unit)
             }
             Op::Drain { front, back, leak } => {
